@@ -60,7 +60,10 @@ def check_array_safe(ctx: Ctx, rule: str, printer: str = "numpy", jax: bool = Fa
     M = model(ctx)
     kf = M.class_table(printer, "_kf") or {}
     kc = M.class_table(printer, "_kc") or {}
-    allowed = set(ELEMENTWISE) | {v for v in list(kf.values()) + list(kc.values()) if isinstance(v, str)}
+    # table entries count as vetted element-wise functions only for the classes a model can produce (sympy's table
+    # also maps Max / Min to the batch-reducing numpy.max / numpy.min)
+    producible = {name for _mod, name in pm.P_CLASSES}
+    allowed = set(ELEMENTWISE) | {v for k, v in list(kf.items()) + list(kc.items()) if isinstance(v, str) and k in producible}
     for mod, name in pm.P_CLASSES:
         r = M.resolve(printer, mod, name)
         key = f"{printer}-printer::{name}"
